@@ -50,7 +50,8 @@ def run_generated(configs, judge, params, seeds=(0,), mode='rr', batch=100, resu
         t0 = time.time()
         try:
             r = run_tlc(c['module'], c['cfg'], runcfg_module(c['defs'], extends=['Integers']),
-                        workers=c.get('workers', 8), consumer=consumer, timeout=c.get('timeout', 3600))
+                        workers=c.get('workers', 8), consumer=consumer, timeout=c.get('timeout', 3600),
+                        extra_files=c.get('extra_files'))
         finally:
             out = farm.close()
         for _, rr in out:
